@@ -7,6 +7,8 @@
 //	               (day, fingerprint) cache and a fake ClickHouse client with scripted outcomes;
 //	--mode dates   the same router under time.Local = FixedZone(offset): the dates that reach
 //	               the client's proto.ColDate;
+//	--mode protos  the label lists built by the Datadog / Elasticsearch / OTLP-logs / InfluxDB-metric decoders,
+//	               in several wire orders and under FingerPrintType = Bernstein;
 //	--mode keys    the key serializer of the production announcement cache on pairs of 64-bit keys.
 //
 // Every random choice derives from --seed. Output: JSON lines.
@@ -23,7 +25,7 @@ import (
 )
 
 func main() {
-	mode := flag.String("mode", "labels", "labels | hist | dates | keys")
+	mode := flag.String("mode", "labels", "labels | hist | dates | keys | protos")
 	f := hx.ParseFlags()
 	config.Cloki = clconfig.New(clconfig.CLOKI_WRITER, nil, "", "")
 	out := hx.OpenOut(f.Out)
@@ -37,6 +39,8 @@ func main() {
 		runDates(f, out)
 	case "keys":
 		runKeys(f, out)
+	case "protos":
+		runProtos(f, out)
 	default:
 		fmt.Fprintln(os.Stderr, "unknown mode", *mode)
 		os.Exit(2)
